@@ -124,7 +124,7 @@ def _one(case):
     search.finish_params(case)
     rows = case['rows']
     means = sorted(sum(r) / len(r) for r in rows)
-    if any(abs(a - b) < 1e-9 for a, b in zip(means, means[1:])):
+    if any(abs(a - b) < 1e-9 for a, b in zip(means, means[1:])) and not case.get('tied_means'):
       out['skipped'] = 'equal geo means'
       return out
     for which in ('exhaustive', 'greedy'):
@@ -137,6 +137,9 @@ def _one(case):
       sc, c = t_scale(case['seed'] % 25 - 12)
       variants = [('shuffle+shift', t_shuffle_shift(case['seed']), None), ('rename', t_rename(case['seed']), None),
                   ('scale', sc, c)]
+      if case.get('tied_means'):
+        # with exactly tied means the row order of the canonical frame follows the geo names: renaming is out of scope
+        variants = [v for v in variants if v[0] != 'rename']
       if not case.get('int_ids'):
         variants.append(('int-ids', t_int_ids, None))
       if case['par_final'].get('budget_range'):
@@ -196,6 +199,41 @@ def run(tier):
     c['int_response'] = False
     c['history'] = None
     c.pop('zero_sum_geo', None)
+    cases.append(c)
+  # two geos with exactly the same mean and the same required impact (one is the other reversed in time), named 9 and 10
+  # (numeric and lexicographic order differ), competing for the last n_geos_max slot: integer or string IDs must not matter
+  for j in range(common.sz(tier, 10, 60)):
+    c = search.gen_case(ck.seed * 100003 + 12 * 1009 + 7000 + j, tier, max_geos=5)
+    rng = random.Random(ck.seed + 7000 + j)
+    nd = len(c['rows'][0])
+    walk = [0.0]
+    for _ in range(nd - 1):
+      walk.append(walk[-1] + rng.gauss(0, 4.0))
+    # twelve geos, IDs 1..12; level falls and noise grows with the ID, so the geos with the largest required impact are
+    # 12, 11, then 10 and 9 exactly tied (10 is 9 reversed in time); n_geos_max admits one of the two (plus 12 and 11,
+    # and in half of the cases 8 ... as well)
+    rows = []
+    for g in range(1, 13):
+      rows.append([float(round(1000 - 37 * g + 2 * w + rng.randint(-3 * g, 3 * g))) for w in walk])
+    rows[9] = list(reversed(rows[8]))
+    c['rows'] = rows
+    c['elig'] = None
+    import statistics
+    sd = [statistics.pstdev(r) for r in rows]
+    n_larger = sum(1 for v in sd if v > sd[8])
+    if n_larger < 1 or n_larger > 4:
+      continue                               # keep the searched set small
+    c['par'] = {'n_test': 3, 'iroas': 1.0, 'n_designs': 5, 'n_pretest_max': 90, 'n_geos_max': n_larger + 1,
+                'treatment_geos_range': (1, 2), 'control_geos_range': (1, 2)}
+    c['want_share'] = c['want_budget'] = False
+    c['shuffle'] = False
+    c['int_ids'] = False
+    c['dup_cells'] = False
+    c['int_response'] = False
+    c['history'] = None
+    c['tied_means'] = True
+    for k in ('zero_sum_geo', 'drift', 'float_valued_integers', 'window_bound_above_history'):
+      c.pop(k, None)
     cases.append(c)
   res = common.pmap(_one, cases, chunksize=2)
   pairs = 0
